@@ -46,6 +46,10 @@ pub struct Layout {
     pub tile_comp: u8,
     pub zooms: [u8; 3],
     pub coords: [i32; 6],
+    /// bit k set: header counter k (addressed tiles, tile entries, tile contents) is written as 0, which the
+    /// specification defines as "unknown" - a valid archive from a writer that does not keep statistics
+    #[serde(default)]
+    pub zero_counters: u8,
 }
 
 /// Hostile edits applied while assembling (C08): varint values of chosen directories, header
@@ -456,9 +460,9 @@ fn build_plain(l: &Layout) -> Built {
         leaf_len: sizes[2],
         data_off: offs[3],
         data_len: sizes[3],
-        n_addressed: tile_entries.iter().map(|e| u64::from(e.run)).sum(),
-        n_entries: tile_entries.len() as u64,
-        n_contents: distinct.len() as u64,
+        n_addressed: if l.zero_counters & 1 == 1 { 0 } else { tile_entries.iter().map(|e| u64::from(e.run)).sum() },
+        n_entries: if l.zero_counters & 2 == 2 { 0 } else { tile_entries.len() as u64 },
+        n_contents: if l.zero_counters & 4 == 4 { 0 } else { distinct.len() as u64 },
         clustered: u8::from(l.data_mode % 4 == 0),
         internal: l.internal,
         tile_comp: l.tile_comp,
